@@ -19,6 +19,7 @@ import (
 	"encoding/json"
 	"errors"
 	"fmt"
+	"io"
 	"math"
 	"strconv"
 	"strings"
@@ -139,7 +140,7 @@ func (jrb *JSONResourceBundle) MustLoad() []Resource {
 // ParseJSONRuleset accepts a byte array containing an array of rules in JSON format to be parsed into GRule syntax.
 func ParseJSONRuleset(data []byte) (rs string, err error) {
 	var rules []GruleJSON
-	err = json.Unmarshal(data, &rules)
+	err = decodeJSON(data, &rules)
 	if err != nil {
 
 		return
@@ -160,7 +161,7 @@ func ParseJSONRuleset(data []byte) (rs string, err error) {
 // ParseJSONRule accepts a byte array containing an rule in JSON format to be parsed into GRule syntax.
 func ParseJSONRule(data []byte) (rs string, err error) {
 	var rule GruleJSON
-	err = json.Unmarshal(data, &rule)
+	err = decodeJSON(data, &rule)
 	if err != nil {
 
 		return
@@ -356,6 +357,10 @@ func buildExpressionEx(input map[string]interface{}, depth int) (string, bool, e
 			case float64:
 
 				return formatNumber(valueType), true, nil
+			case json.Number:
+				literal, err := formatJSONNumber(valueType)
+
+				return literal, true, err
 			case bool:
 				if valueType {
 
@@ -386,6 +391,39 @@ func formatNumber(number float64) string {
 	}
 
 	return strconv.FormatFloat(number, 'f', -1, 64)
+}
+
+// formatJSONNumber writes a number of a JSON text as the GRL literal of the same value. A number written as an
+// integer keeps its digits: decoded into a float64 an identifier such as 1541815603606036481 would come back as
+// another integer. Everything else is formatted by its value.
+func formatJSONNumber(number json.Number) (string, error) {
+	if integer, err := strconv.ParseInt(number.String(), 10, 64); err == nil {
+
+		return strconv.FormatInt(integer, 10), nil
+	}
+	float, err := number.Float64()
+	if err != nil {
+
+		return "", fmt.Errorf("number %s cannot be used: %w", number.String(), err)
+	}
+
+	return formatNumber(float), nil
+}
+
+// decodeJSON decodes data, the whole of it, into target. Numbers are kept as the text they were written with.
+func decodeJSON(data []byte, target interface{}) error {
+	decoder := json.NewDecoder(bytes.NewReader(data))
+	decoder.UseNumber()
+	if err := decoder.Decode(target); err != nil {
+
+		return err
+	}
+	if _, err := decoder.Token(); err != io.EOF {
+
+		return fmt.Errorf("unexpected data after the JSON value")
+	}
+
+	return nil
 }
 
 func buildCompoundOperator(o interface{}, depth int, operator string) (string, bool, error) {
@@ -461,6 +499,9 @@ func parseCallOperand(o interface{}) (string, error) {
 	case float64:
 
 		return formatNumber(operandType), nil
+	case json.Number:
+
+		return formatJSONNumber(operandType)
 	case bool:
 		if operandType {
 
@@ -533,6 +574,13 @@ func parseOperand(o interface{}, noWrap bool, negation bool) (string, error) {
 		plain = operandType
 	case float64:
 		plain = formatNumber(operandType)
+	case json.Number:
+		literal, err := formatJSONNumber(operandType)
+		if err != nil {
+
+			return "", err
+		}
+		plain = literal
 	case bool:
 		plain = "false"
 		if operandType {
